@@ -5,7 +5,7 @@ import vlib
 from props.common import TRUSTED_BASE, ASSUMPTIONS
 
 ID = "C02"
-LEAN_MODULES = ["LexVerif.Props.C02", "LexVerif.Props.RoundNE", "LexVerif.Props.TablesWrite", "LexVerif.Props.Literals.WriteFloatAlgorithm", "LexVerif.Props.Literals.WriteFloatCompact", "LexVerif.Props.Literals.WriteFloatShared", "LexVerif.Props.Literals.WriteFloatWrite", "LexVerif.Props.Literals.WriteIntegerJeaiii", "LexVerif.Props.Literals.WriteIntegerDecimal", "LexVerif.Props.Literals.WriteFloatFloat"]
+LEAN_MODULES = ["LexVerif.Props.C02", "LexVerif.Props.RoundNE", "LexVerif.Props.TablesWrite", "LexVerif.Props.Literals.WriteFloatAlgorithm", "LexVerif.Props.Literals.WriteFloatCompact", "LexVerif.Props.Literals.WriteFloatShared", "LexVerif.Props.Literals.WriteFloatWrite", "LexVerif.Props.Literals.WriteIntegerJeaiii", "LexVerif.Props.Literals.WriteIntegerDecimal", "LexVerif.Props.Literals.WriteFloatFloat", "LexVerif.Props.LiteralsModelWrite"]
 GEN = ["write_tables", "literals"]
 TRUSTED = TRUSTED_BASE + [
     "Dragonbox / Grisu correctness for ALL inputs is NOT proved in Lean (research-level; `dragonbox_correct`, `grisu_roundtrip` are "
